@@ -1516,6 +1516,25 @@ def assemble(verif_root, repo_root, unit, out_path):
                 if prover is None:
                     raise ExtractError('bad-template', '%s: external_body stub of %s, but no other unit proves this function with an identical @sig contract' % (where, name))
                 meta['stub_of'] = prover
+                # only the contract of a stub is used (its text is cross-checked above); the body is never verified here, so it is
+                # dropped: the unit then does not need scaffolding for whatever the callee's body mentions, and stays
+                # assemblable when that body changes (its own unit decides it)
+                tk_ = [t for t in lex(text) if t[0] not in ('ws', 'lcomment', 'bcomment')]
+                if tk_ and tk_[-1][0] == 'punct' and tk_[-1][1] == '}':
+                    # the body is the LAST top-level block (the spliced contract may contain braces of its own)
+                    d_ = 0
+                    q_ = len(tk_) - 1
+                    while q_ >= 0:
+                        if tk_[q_][0] == 'punct' and tk_[q_][1] == '}':
+                            d_ += 1
+                        elif tk_[q_][0] == 'punct' and tk_[q_][1] == '{':
+                            d_ -= 1
+                            if d_ == 0:
+                                break
+                        q_ -= 1
+                    if q_ > 0:
+                        text = text[:tk_[q_][2]] + '{ unimplemented!() }' + text[tk_[-1][3]:]
+                        meta.setdefault('rules', []).append(['STUB', 'body of the external_body stub dropped (contract cross-checked against unit %s)' % prover])
             cur_line = ''.join(out).count('\n') + 1
             meta['out_lines'] = [cur_line, cur_line + text.count('\n')]
             extracts.append(meta)
